@@ -154,7 +154,7 @@ def discover_stores(p: Project) -> List[StoreInfo]:
         for c in p.mro(ci.key):
             for fi in c.methods.values():
                 roots |= spawned_self_methods(fi.node)
-        roots = sorted(r for r in roots if r in methods and methods[r].is_generator)
+        roots = sorted(r for r in roots if r in methods)     # generator or not: a spawned non-generator is judged by the rules
         wraps = False
         mv = methods.get('move_to_ready_items')
         if mv:
